@@ -16,7 +16,8 @@ CORRUPT_KINDS = ["subst", "delete", "insert", "insert_nul", "dup", "insert_speci
 SPECIAL_BYTES = b"\n\r\t +-.0123456789=\x01\x00\x0b\x0c\x85\xa0"
 MALFORMED = ["bodylen_alpha", "bodylen_neg", "bodylen_huge", "cks_alpha", "tag_alpha", "no_equals",
              "empty_field", "wrong_order", "truncated", "wrong_begin", "blob",
-             "odd_dup_tag", "odd_tag_after_group", "odd_group_structure", "odd_random_tags", "hdr_value_alpha"]
+             "odd_dup_tag", "odd_tag_after_group", "odd_group_structure", "odd_random_tags", "hdr_value_alpha",
+             "odd_huge_number"]
 # tags of the FIX 4.4 repeating-group table (count tags and members, nested ones included) + plain ones
 ODD_POOL = ["453", "448", "447", "452", "802", "523", "803", "454", "455", "456", "555", "600", "539", "524", "525",
             "538", "804", "545", "805", "136", "137", "138", "139", "78", "79", "80", "11", "55", "54", "38", "44",
@@ -358,6 +359,23 @@ class StreamSim(PeerSim):
                     [("11", "ODD"), ("453", "1"), ("448", "p"), ("802", "1"), ("523", "s"), ("448", "q"), ("453", "1"), ("448", "r")],
                     [("453", "x"), ("453", "1"), ("453", "1")],
                 ])
+            elif kind == "odd_huge_number":
+                # digit strings beyond what int() converts (CPython refuses more than 4300 digits) where the
+                # decoder / session layer expects a number: tag, MsgSeqNum, NewSeqNo
+                big = "1" * r.choice([19, 100, 4300, 4301, 6000])
+                which = r.choice(["tag", "tag", "seq", "newseqno"])
+                self.n_corrupt += 1
+                self.n_malformed += 1
+                self.fault("malformed_" + kind + "_" + which)
+                self.faults_applied.append((kind, None, None))
+                self.last_fault_ev = self.rec("malformed", kind, which, len(big))
+                if which == "tag":
+                    p.send("D", [("11", "ODD"), (big, "x"), ("55", "A")], spec={"odd": kind})
+                elif which == "seq":
+                    p.send("D", [("11", "ODD"), ("55", "A")], seq=big, count=False, spec={"odd": kind})
+                else:
+                    p.send("4", [("123", "Y"), ("36", big)], count=False, spec={"odd": kind})
+                return
             else:
                 body = [(r.choice(ODD_POOL), r.choice(["1", "2", "x", "", "Y"])) for _ in range(r.randint(1, 12))]
                 body = [(t, v or "e") for t, v in body]
